@@ -510,6 +510,72 @@ func newExec(t *testing.T) func([]string) string {
 				return "no-packet"
 			}
 			return e.observe(nA, e.src(a[1], nR), q[len(q)-1].Data) + " seen=0 xr=" + hlib.B(e.xRemote())
+		case "xdirect":
+			// xdirect <own|other> <allow|deny>: A's hostinfo for X is given a direct underlay remote E (X's real
+			// address, or another one), then X sends one more AUTHENTIC data packet that still travels through
+			// the relay (arrives from R's underlay address); A's remote for X and the learned address list of X
+			// are read back; then the tunnel is made relay-only again. deny: lighthouse.remote_allow_list
+			// refuses the relay's address.
+			if e.net == nil {
+				return "bad-op"
+			}
+			A, X, R := e.net.Nodes[nA], e.net.Nodes[nX], e.net.Nodes[nR]
+			xi := A.PrimaryIndex(X.Vpn)
+			if xi == 0 {
+				return "no-tunnel"
+			}
+			E := e.src(a[1], nX)
+			pkt, _, _, ok := e.produce("rmsg")
+			if !ok {
+				return "no-packet"
+			}
+			// the relay frame arrives from the address A currently has for R (so that R's own tunnel does not roam)
+			rAddr := R.Udp
+			for _, h := range A.State().Hosts {
+				if h.LocalIndex == A.PrimaryIndex(R.Vpn) && h.Remote.IsValid() {
+					rAddr = h.Remote
+				}
+			}
+			if a[2] == "deny" {
+				if err := A.SetRemoteAllowListDeny(rAddr.Addr().String() + "/32"); err != nil {
+					panic(err)
+				}
+			}
+			learned := func() bool {
+				for _, l := range A.State().LhCache {
+					if strings.HasPrefix(l, X.Vpn.String()+"=") && strings.Contains(strings.SplitN(l, "|", 2)[0], rAddr.String()) {
+						return true
+					}
+				}
+				return false
+			}
+			had := learned()
+			A.SetRemoteByIndex(xi, E)
+			A.Dev.Out = nil
+			e.net.Take()
+			A.Inject(rAddr, append([]byte{}, pkt...))
+			tun := len(A.Dev.Out)
+			remote := "none"
+			lrelay := false
+			st := A.State()
+			for _, h := range st.Hosts {
+				if h.LocalIndex == xi {
+					switch {
+					case !h.Remote.IsValid():
+					case h.Remote == E:
+						remote = "E"
+					case h.Remote == rAddr:
+						remote = "relay"
+					default:
+						remote = "elsewhere"
+					}
+				}
+			}
+			lrelay = learned() && !had
+			A.SetRemoteAllowListDeny("")
+			A.ClearRemote(xi)
+			e.net.Take()
+			return fmt.Sprintf("tun=%d remote=%s lrelay=%s xr=%s", tun, remote, hlib.B(lrelay), hlib.B(e.xRemote()))
 		case "reply":
 			// reply: A's tun hands nebula a packet for X; it must leave as a Message/Relay frame to the relay
 			if e.net == nil {
@@ -562,6 +628,13 @@ func gen(r *hlib.Rand, n int, tier, profile string, emit func(string, ...any)) {
 		// C14 (unauthenticated inner packet inside an authentic relay frame): the relay re-seals a payload of
 		// >= 16 bytes whose header names another relay index of A / a hostinfo index / nobody's index / the
 		// carrying index itself, or whose body is garbage; only the carrying relay index may be marked used
+		// C15 (a relayed packet never changes the endpoint's remote): X's tunnel at A gets a direct remote,
+		// then an authentic packet of X arrives through the relay
+		if r.Chance(1, 2) {
+			emit("xdirect own allow")
+			emit("xdirect other %s", hlib.Pick(r, "allow", "allow", "deny"))
+			ops += 2
+		}
 		if r.Chance(1, 2) {
 			emit("pkt ctrl own out none")
 			emit("pkt rmsg %s lie setidx relayB", hlib.Pick(r, "own", "own", "other"))
@@ -587,7 +660,9 @@ func gen(r *hlib.Rand, n int, tier, profile string, emit func(string, ...any)) {
 			// relay-only tunnel X-A: retransmitted / replayed stage-0 handshakes re-wrapped by the relay,
 			// and A's own traffic for X, which must stay inside the relay tunnel
 			if y := r.Intn(100); y < 8 || (profile == "C15" && y < 22) {
-				switch r.Intn(5) {
+				switch r.Intn(6) {
+				case 5:
+					emit("xdirect %s %s", hlib.Pick(r, "own", "other"), hlib.Pick(r, "allow", "allow", "deny"))
 				case 0:
 					emit("hsdup %s %s X", hlib.Pick(r, "own", "own", "other", "mynet"), hlib.Pick(r, "relay", "relay", "relay", "flip"))
 				case 1:
